@@ -21,6 +21,16 @@ func VerifC08Session() {
 	sq := symQOS("subqos")
 	vAssert(m.Subscribe(c1, []packet.Subscription{{Topic: f, QOS: sq}}, nil) == nil, "Subscribe")
 	vAssert(m.Terminate(c1) == nil, "Terminate")
+	// optionally a second, online subscriber with its own granted QoS on the same filter: it
+	// takes its copies first; what it does with them must not change what the offline client gets
+	other := vBool("other")
+	var c3 *Client
+	var oq packet.QOS
+	if other {
+		c3, _ = mkClient(m, "o", true)
+		oq = symQOS("otherqos")
+		vAssert(m.Subscribe(c3, []packet.Subscription{{Topic: f, QOS: oq}}, nil) == nil, "Subscribe")
+	}
 
 	n := vLen("offline", 0, 2)
 	var topics []string
@@ -30,6 +40,13 @@ func VerifC08Session() {
 		msg := &packet.Message{Topic: symName("topic", L), Payload: []byte{byte(i + 1)}, QOS: symQOS("pubqos")}
 		topics, qos, marks = append(topics, msg.Topic), append(qos, msg.QOS), append(marks, byte(i+1))
 		vAssert(m.Publish(pub, msg, nil) == nil, "offline Publish succeeds")
+		if other && topic.VerifRefMatch(f, topics[i]) {
+			got, _, _ := m.Dequeue(c3)
+			vAssert(got != nil && got.Payload[0] == marks[i], "the online subscriber gets its copy")
+			if got != nil {
+				vAssert(got.QOS == minQ(qos[i], oq), "at its own capped QoS")
+			}
+		}
 	}
 
 	clean2 := vBool("clean2")
